@@ -98,6 +98,8 @@ type lbCall struct {
 	cancel   context.CancelFunc
 	timer    *time.Timer
 	picks    []*lbPick
+	stormT   time.Time // picks of this RPC in one virtual instant (see lbPicker.Pick)
+	stormN   int
 }
 
 type lbCtxKey struct{}
@@ -149,6 +151,7 @@ type lbExt struct {
 	watchCancel  context.CancelFunc
 	watchers     []*lbWatcher
 
+	storm      bool // a retry storm was cut: virtual time may have been warped by the runtime's spin guard
 	quiesced   bool
 	quiesceSeq uint64
 	noPickHdrs []uint32 // RPC ids of request HEADERS without a pick id
